@@ -83,15 +83,11 @@ def joinL : List String → Bytes → List Bytes → Option (List Bytes × Bytes
         else joinL ts [] ((acc ++ frag) :: ls)
     | _ => none
 
-/-- the tokens a pure `ReadBytes` loop must produce -/
-def expectB (data : Bytes) (fin : String) : List String :=
-  let ls := Biogo.BytesFeat.lines data
-  let endTok := s!"B:-:{fin}"
-  match data.getLast? with
-  | some b =>
-    if b == 10 then ls.map (fun l => s!"B:{hexOfBytes l}:-") ++ [endTok, endTok]
-    else ls.dropLast.map (fun l => s!"B:{hexOfBytes l}:-") ++ [s!"B:{hexOfBytes (ls.getLast?.getD [])}:{fin}", endTok]
-  | none => [endTok, endTok]
+/-- the tokens a pure `ReadBytes` loop must produce: `Biogo.Spec.Bufio.readBytesCalls` (the image
+    proved in `Properties/C04_bufio`), then the final error once more -/
+def expectB (data : Bytes) (fin : Err) : List String :=
+  (Biogo.Spec.Bufio.readBytesCalls fin data).map (fun c => s!"B:{hexOfBytes c.1}:{errStr c.2}")
+    ++ [s!"B:-:{errStr (some fin)}"]
 
 def statement (size : Nat) (src : Src) (opsWord : String) (data : Bytes) (obs : List String) : Option String :=
   let fin := errStr (some src.fin)
@@ -110,7 +106,7 @@ def statement (size : Nat) (src : Src) (opsWord : String) (data : Bytes) (obs : 
         some "lineInput 4096 differs from readLineInput"
       else none
   else if opsWord == "B" then
-    if obs != expectB data fin then some "readbytes-loop: results are not the lines with their terminators"
+    if obs != expectB data src.fin then some "readbytes-loop: results are not the lines with their terminators"
     else none
   else none
 
